@@ -208,6 +208,12 @@ def py_p_val_eq(v, w):
 
 
 @predicate
+def p_echo(v, w=None):
+    """returns what it was called with: outside every block the body runs, whatever the arguments are"""
+    return ("ran", v, w)
+
+
+@predicate
 def p_a_lt(e, f):
     """function predicate relating two entities"""
     return e.a < f.a
